@@ -147,12 +147,15 @@ def to_str(v):
 
 
 _ufs = {}
+LIST_UFS = {}     # name -> (function, list type): functions returning Python lists
 
 
-def uf(name, argsorts, ressort):
+def uf(name, argsorts, ressort, rett=None):
   key = name
   if key not in _ufs:
     _ufs[key] = z3.Function(name, *(list(argsorts) + [ressort]))
+  if rett is not None and rett.kind == 'list':
+    LIST_UFS[key] = (_ufs[key], rett)
   return _ufs[key]
 
 
@@ -179,12 +182,18 @@ def eq(a, b):
       return z3.BoolVal(False)
     raise Unsupported('== between %r and %r' % (a.t, b.t))
   k = a.t.kind
+  if k == 'list' and not _constructed(a.z) and not _constructed(b.z):
+    # neither side is built here (variables, elements, function results): same stored value
+    return a.z == b.z
   if k == 'list':
     i = z3.Int(sv.fresh_name('eqk'))
     ea = V(a.t.args[0], z3.Select(sv.l_arr(a), i))
     eb = V(a.t.args[0], z3.Select(sv.l_arr(b), i))
+    # elements that are themselves containers are compared as terms (identity of the stored
+    # value): sound in goals, and a clause is translated the same way where it is assumed
+    inner = (ea.z == eb.z) if ea.t.kind in ('list', 'dict', 'set') else eq(ea, eb)
     return z3.And(sv.l_len(a) == sv.l_len(b),
-                  z3.ForAll([i], z3.Implies(z3.And(0 <= i, i < sv.l_len(a)), eq(ea, eb))))
+                  z3.ForAll([i], z3.Implies(z3.And(0 <= i, i < sv.l_len(a)), inner)))
   if k == 'dict':
     kk = z3.Const(sv.fresh_name('eqk'), sv.zsort(a.t.args[0]))
     va = V(a.t.args[1], z3.Select(sv.d_vals(a), kk))
@@ -201,6 +210,24 @@ def eq(a, b):
   if k == 'none':
     return z3.BoolVal(True)
   return a.z == b.z
+
+
+def normalise_list(v):
+  if v.t.kind != 'list' or v.meta == 'empty':
+    return v
+  if not _constructed(v.z):
+    return v            # variables / function results / elements are used as they are
+  i = z3.Int('i!nl')
+  n = sv.l_len(v)
+  arr = z3.Lambda([i], z3.If(z3.And(0 <= i, i < n), z3.Select(sv.l_arr(v), i), sv.default_z(v.t.args[0])))
+  return sv.mk_list(v.t, arr, n)
+
+
+def _constructed(z):
+  try:
+    return z3.is_app(z) and z.decl().name() == 'mk'
+  except z3.Z3Exception:
+    return True
 
 
 def str_index(s, i):
@@ -324,6 +351,18 @@ class Engine:
 
   # ---------------------------------------------------------------- expressions
   def ev(self, n, st, want=None):
+    ab = self.u.get('abstract_exprs')
+    if ab and isinstance(n, (ast.Subscript, ast.Call, ast.Compare, ast.Attribute)):
+      key = ast.unparse(n)
+      if key not in ab and isinstance(n, ast.Compare) and len(n.ops) == 1 and isinstance(n.ops[0], ast.NotIn):
+        pos = ast.Compare(left=n.left, ops=[ast.In()], comparators=n.comparators)
+        if ast.unparse(pos) in ab:
+          return sv.mk_bool(z3.Not(self.ev(ast.copy_location(pos, n), st).z))
+      if key in ab:
+        ufname, argnames, rett = ab[key]
+        args = [self.e_Name(ast.Name(id=a, lineno=getattr(n, 'lineno', 0)), st) for a in argnames]
+        f = uf('spec_' + ufname, [sv.zsort(a.t) for a in args], sv.zsort(self.ty(rett)), self.ty(rett))
+        return V(self.ty(rett), f(*[a.z for a in args]))
     m = getattr(self, 'e_' + type(n).__name__, None)
     if m is None:
       raise Unsupported('expression %s at line %d' % (type(n).__name__, getattr(n, 'lineno', 0)))
@@ -418,6 +457,11 @@ class Engine:
       if t is not None:
         st.env[dn] = sv.const(t, dn)
         return st.env[dn]
+    if isinstance(n.value, ast.Name) and n.value.id == 'cls':
+      cls = self.u.get('cls')
+      full = (cls + '.' + n.attr) if cls else n.attr
+      if full in self.reg:
+        return Callable_('unit', unit=self.reg[full], self_='cls')
     if isinstance(n.value, ast.Name) and n.value.id == 'self' and 'self' not in self.bound:
       key = 'self.' + n.attr
       if key in st.env:
@@ -811,7 +855,12 @@ class Engine:
     it = g.iter
     saved = self.bound.get(name)
     try:
-      if isinstance(it, ast.Call) and isinstance(it.func, ast.Name) and it.func.id == 'range':
+      if isinstance(it, ast.Call) and isinstance(it.func, ast.Name) and it.func.id == 'Sort':
+        tt = self.ty(it.args[0].value)
+        k = z3.Const(sv.fresh_name(name), sv.zsort(tt))
+        dom = z3.BoolVal(True)
+        self.bound[name] = V(tt, k)
+      elif isinstance(it, ast.Call) and isinstance(it.func, ast.Name) and it.func.id == 'range':
         k = z3.Int(sv.fresh_name(name))
         args = [self.ev(a, st).z for a in it.args]
         lo, hi = (z3.IntVal(0), args[0]) if len(args) == 1 else (args[0], args[1])
@@ -951,7 +1000,7 @@ class Engine:
     if callee.kind == 'uf':
       argts, rett = self.u['ufs'][callee.name]
       args = [coerce(self.ev(a, st), self.ty(t)) for a, t in zip(n.args, argts)]
-      f = uf('spec_' + callee.name, [sv.zsort(a.t) for a in args], sv.zsort(self.ty(rett)))
+      f = uf('spec_' + callee.name, [sv.zsort(a.t) for a in args], sv.zsort(self.ty(rett)), self.ty(rett))
       return V(self.ty(rett), f(*[a.z for a in args]))
     if callee.kind == 'ctor':
       args = [self.ev(a, st) for a in n.args]
@@ -1012,6 +1061,36 @@ class Engine:
       if v.t.kind == 'dict':
         return V(Ty('set', [v.t.args[0]]), sv.d_keys(v))
       raise Unsupported('set(%r)' % (v.t,))
+    if name == 'list' and args and isinstance(args[0], ast.Call) and \
+        isinstance(args[0].func, ast.Name) and args[0].func.id == 'map' and len(args[0].args) == 2:
+      fn = self.ev(args[0].args[0], st)
+      xs = self.ev(args[0].args[1], st)
+      if not (isinstance(fn, Callable_) and fn.kind == 'unit' and fn.unit.get('pure')) or xs.t.kind != 'list':
+        raise Unsupported('map() with a non-pure function or non-list')
+      k = z3.Int(sv.fresh_name('mapk'))
+      saved = self.bound.get('__map_elem')
+      self.bound['__map_elem'] = V(xs.t.args[0], z3.Select(sv.l_arr(xs), k))
+      try:
+        call = ast.Call(func=args[0].args[0], args=[ast.Name(id='__map_elem', lineno=n.lineno)], keywords=[],
+                        lineno=n.lineno)
+        self.guards.append(z3.And(0 <= k, k < sv.l_len(xs)))
+        try:
+          e = self.call_unit(fn.unit, call, st)
+        finally:
+          self.guards.pop()
+      finally:
+        if saved is None:
+          self.bound.pop('__map_elem', None)
+        else:
+          self.bound['__map_elem'] = saved
+      # the mapped list is a fresh array with its defining axiom (friendlier to e-matching than
+      # a lambda when the list is later used under quantifiers)
+      lt = Ty('list', [e.t])
+      arr = z3.Const(sv.fresh_name('maparr'), z3.ArraySort(z3.IntSort(), sv.zsort(e.t)))
+      self.assume(st, z3.ForAll([k], z3.Implies(z3.And(0 <= k, k < sv.l_len(xs)),
+                                               z3.Select(arr, k) == e.z),
+                                patterns=[z3.Select(arr, k), e.z]))
+      return sv.mk_list(lt, arr, sv.l_len(xs))
     if name == 'list':
       if not args:
         return V(Ty('list', [INT]), None, meta='empty')
@@ -1177,6 +1256,7 @@ class Engine:
       raise Unsupported('call of %s with %d args' % (cu['name'], len(args)))
     sub = Engine(cu, self.reg)
     sub.consts = cu.get('consts', {})
+    sub.depth = getattr(self, 'depth', 0) + 1
     cst = St()
     cst.pc = st.pc
     for p, a in zip(params, args):
@@ -1200,8 +1280,10 @@ class Engine:
       ins = [cst.env[p] for p in params] + reads
       if rt is None:
         raise Unsupported('pure unit without return type')
-      f = uf('pure_' + cu['name'], [sv.zsort(v.t) for v in ins], sv.zsort(rt))
-      res = V(rt, f(*[v.z for v in ins]))
+      f = uf('pure_' + cu['name'], [sv.zsort(v.t) for v in ins], sv.zsort(rt), rt)
+      # list arguments are normalised outside [0, len) so that two lists equal as Python values
+      # are equal as terms and the function symbol is congruent on them
+      res = V(rt, f(*[normalise_list(v).z for v in ins]))
       post_st = cst
     else:
       post_st = cst.copy()
@@ -1212,7 +1294,12 @@ class Engine:
     sub.old_env = dict(cst.env)
     sub.bound = {'result': res}
     sub.assuming = True
-    for r in cu.get('ensures', []):
+    skip = set(cu.get('smt_skip_ensures', []))
+    # postconditions of a callee are assumed at the call site only; calls made *inside* those
+    # postconditions are bare applications (no unbounded unfolding of mutually recursive contracts)
+    for i_, r in enumerate(cu.get('ensures', []) if getattr(self, 'depth', 0) < 1 else []):
+      if i_ in skip:
+        continue
       self.assume(st, guard_all(self.guards, truthy(sub.ev(parse_expr(r), post_st))))
     sub.assuming = False
     # a call that may raise: the normal continuation assumes the raise conditions are false
@@ -1762,6 +1849,8 @@ class Engine:
         if rt is not None and not isinstance(val, RecV):
           val = coerce(val, rt)
         for k, e in enumerate(u.get('ensures', [])):
+          if k in u.get('smt_skip_ensures', []):
+            continue          # clause stated for the native back end only (see sidecar)
           f = self.spec_formula(e, s2, old_env=old_env, bound={'result': val})
           self.emit(s2, 'post', f, None, e, tag='[%d]' % k)
         for exc, cond in raises.items():
